@@ -6,7 +6,7 @@ from __future__ import annotations
 from ..proj import mk_dt
 from .common import NAIVE, anomalies, pick, real_zone_names, synth_zone_names, wall_of_localsec
 
-MAIN = ("datetime", "create", "tz_convert", "tz_convert_p")
+MAIN = ("datetime", "create", "tz_convert", "tz_convert_p", "datetime_pos", "create_pos")
 
 
 def walls_of(kind, ws, we):
